@@ -3,5 +3,5 @@
 set -e
 cd "$(dirname "$0")"
 for f in asan asan-grow plain tsan; do ./build.sh $f >/dev/null & done; wait
-./mk.sh asan bx >/dev/null; ./mk.sh asan-grow bx >/dev/null; ./mk.sh asan kx >/dev/null; ./mk.sh plain sx >/dev/null; ./mk.sh tsan sx >/dev/null
+./mk.sh asan bx >/dev/null; ./mk.sh asan-grow bx >/dev/null; ./mk.sh asan hx >/dev/null; ./mk.sh asan kx >/dev/null; ./mk.sh plain sx >/dev/null; ./mk.sh tsan sx >/dev/null
 echo setup ok
